@@ -80,8 +80,12 @@ var c02Forms = []timeForm{
 	{"plus0530", func(t time.Time) string {
 		return t.In(time.FixedZone("", 5*3600+1800)).Format("2006-01-02T15:04:05.000Z07:00")
 	}},
-	{"minus0800", func(t time.Time) string { return t.In(time.FixedZone("", -8*3600)).Format("2006-01-02T15:04:05.000Z07:00") }},
-	{"plus1400", func(t time.Time) string { return t.In(time.FixedZone("", 14*3600)).Format("2006-01-02T15:04:05.000Z07:00") }},
+	{"minus0800", func(t time.Time) string {
+		return t.In(time.FixedZone("", -8*3600)).Format("2006-01-02T15:04:05.000Z07:00")
+	}},
+	{"plus1400", func(t time.Time) string {
+		return t.In(time.FixedZone("", 14*3600)).Format("2006-01-02T15:04:05.000Z07:00")
+	}},
 	{"nanos9", func(t time.Time) string { return t.UTC().Format("2006-01-02T15:04:05.000000000Z") }},
 	{"zoneless", func(t time.Time) string { return t.UTC().Format("2006-01-02T15:04:05.000") }},
 	{"trimmed-fraction", func(t time.Time) string { return t.UTC().Format("2006-01-02T15:04:05.999Z07:00") }},
